@@ -35,6 +35,10 @@ func init() {
 			"that every subscriptionUpdater callback enters the resolver only under updater.mu after the done/ctx gate; and that handleTriggerUpdate joins its workers. " +
 			"It does not decide ordering or exactness of the delivered messages (value/ history level).",
 		Mutants: []Mutant{
+			{Name: "filter loop returns at the first filter error (seeded change C12-22)", File: resolveGo, Rule: "C12-R7", Key: "trigger.filterSubscriptions/filter-loop-visits-every-subscriber",
+				Old: "\t\tif filterErr != nil {\n\t\t\tfilterErrors = append(filterErrors, *filterErr)\n\t\t}\n\t}\n\n\treturn subs, filterErrors\n", New: "\t\tif filterErr != nil {\n\t\t\tfilterErrors = append(filterErrors, *filterErr)\n\t\t\treturn subs, filterErrors\n\t\t}\n\t}\n\n\treturn subs, filterErrors\n"},
+			{Name: "per-connection index entry dropped with the first subscription that ends (seeded change C12-23)", File: resolveGo, Rule: "C12-R8", Key: "Resolver.unregisterSubscriptionLocked/connection-entry-deleted-only-when-empty",
+				Old: "\tdelete(byConn, id)\n\tif len(byConn) == 0 {\n\t\tdelete(r.subscriptionsByConnection, id.ConnectionID)\n\t}\n", New: "\tdelete(byConn, id)\n\tdelete(r.subscriptionsByConnection, id.ConnectionID)\n"},
 			{Name: "synchronous API returns right after unsubscribing (seeded change C12-11)", File: resolveGo, Rule: "C12-R5", Key: "ResolveGraphQLSubscription/exit-after-completed",
 				Old: "\t\t_ = r.UnsubscribeSubscription(id)\n\t\tselect {\n\t\tcase <-completed:\n\t\t\t// Wait for the subscription to be completed to avoid race conditions\n\t\t\t// with go sdk request shutdown.\n\t\tcase <-r.ctx.Done():\n\t\t\t// Resolver shutdown\n\t\t\treturn r.ctx.Err()\n\t\t}\n", New: "\t\treturn r.UnsubscribeSubscription(id)\n"},
 			{Name: "one failing filter drops the event for all subscribers (seeded change C12-13)", File: resolveGo, Rule: "C12-R6", Key: "handleTriggerUpdate/exit-after-delivery",
@@ -98,6 +102,8 @@ func subsLockAnalysis(r *fw.Run) *fw.LockAnalysis {
 func runC12(r *fw.Run) {
 	defer c12SyncAPIWaitsForCompletion(r)
 	defer c12FilterErrorsDoNotSilenceOthers(r)
+	defer c12EverySubscriberIsFiltered(r)
+	defer c12ConnectionIndexMirrorsRegistration(r)
 	p := r.Prog
 	if p.Named("resolve", "subscriptionState") == nil {
 		r.Error("type resolve.subscriptionState not found")
@@ -580,4 +586,134 @@ func c12FilterErrorsDoNotSilenceOthers(r *fw.Run) {
 	}
 	in.Run(nil)
 	r.Expect("C12-R6", "exits of handleTriggerUpdate after filtering", n, 1)
+}
+
+// c12EverySubscriberIsFiltered (R7): delivered == filter(events) per subscriber needs every subscriber of the trigger to be
+// looked at for every event. The loops of package resolve that range over trigger.subscriptions and evaluate the filter
+// for each one (evalFilter) must not leave early: no return, break or goto inside the loop body. A return on the first
+// filter error makes the subscribers that the map iteration happens to visit later miss the event.
+func c12EverySubscriberIsFiltered(r *fw.Run) {
+	p := r.Prog
+	r.Rule("C12-R7", "every loop over trigger.subscriptions that evaluates the per-subscriber filter visits all subscribers: no return / break / goto inside its body")
+	n := 0
+	for _, fi := range p.Funcs("resolve") {
+		info := fi.Info()
+		fw.WalkAll(fi.Decl.Body, func(nd ast.Node) bool {
+			rs, ok := nd.(*ast.RangeStmt)
+			if !ok || !fw.IsFieldSel(info, rs.X, "resolve", "trigger", "subscriptions") {
+				return true
+			}
+			evaluates := false
+			fw.WalkAll(rs.Body, func(m ast.Node) bool {
+				if c, isCall := m.(*ast.CallExpr); isCall && fw.CallIs(info, c, "resolve", "trigger.evalFilter") {
+					evaluates = true
+				}
+				return true
+			})
+			if !evaluates {
+				return true
+			}
+			n++
+			var early ast.Node
+			var walk func(m ast.Node, inner bool)
+			walk = func(m ast.Node, inner bool) {
+				ast.Inspect(m, func(x ast.Node) bool {
+					switch y := x.(type) {
+					case *ast.FuncLit:
+						return false
+					case *ast.ForStmt, *ast.RangeStmt, *ast.SwitchStmt, *ast.TypeSwitchStmt, *ast.SelectStmt:
+						if x != m {
+							walk(x, true) // a break inside belongs to the inner statement
+							return false
+						}
+					case *ast.ReturnStmt:
+						early = y
+					case *ast.BranchStmt:
+						if y.Tok.String() == "goto" || (y.Tok.String() == "break" && (!inner || y.Label != nil)) {
+							early = y
+						}
+					}
+					return true
+				})
+			}
+			walk(rs.Body, false)
+			pos := rs.Pos()
+			if early != nil {
+				pos = early.Pos()
+			}
+			r.Check(early == nil, "C12-R7", fi.Name()+"/filter-loop-visits-every-subscriber", p.Pos(pos), "the filter loop over trigger.subscriptions in "+fi.Name()+" has no early exit",
+				"the loop ends at the first subscriber that takes this exit: the subscribers the map iteration visits later are never evaluated for this event and miss it (which ones depends on the iteration order)")
+			return true
+		})
+	}
+	r.Expect("C12-R7", "filter loops over trigger.subscriptions", n, 1)
+}
+
+// c12ConnectionIndexMirrorsRegistration (R8): UnsubscribeClient ends exactly the subscriptions of a connection by reading
+// the per-connection index. registerSubscriptionLocked adds ONE subscription to the inner set of its connection;
+// unregistering one subscription may therefore remove the connection's entry from subscriptionsByConnection only on the
+// edge where the inner set is empty. Dropping the whole entry with the first subscription that ends leaves the other
+// subscriptions of that connection out of the index: UnsubscribeClient no longer finds them, they keep receiving events
+// and their completed channel is never closed.
+func c12ConnectionIndexMirrorsRegistration(r *fw.Run) {
+	p := r.Prog
+	r.Rule("C12-R8", "an entry of Resolver.subscriptionsByConnection is deleted only on the edge where the connection's inner set is empty")
+	n := 0
+	for _, fi := range p.Funcs("resolve") {
+		info := fi.Info()
+		ord := 0
+		in := fw.NewInterp(fi)
+		in.H = fw.Hooks{
+			Cond: func(e ast.Expr, branch bool, st *fw.State) {
+				a := fw.Atom(info, e, branch)
+				if a.Kind != "Empty" {
+					return
+				}
+				// the inner set: a local defined by indexing subscriptionsByConnection, or such an index expression itself
+				x := ast.Unparen(a.X)
+				if ix, ok := x.(*ast.IndexExpr); ok && fw.IsFieldSel(info, ix.X, "resolve", "Resolver", "subscriptionsByConnection") {
+					st.Set("inner-empty")
+				}
+				if id, ok := x.(*ast.Ident); ok && identFromIndexOfField(fi, info.Uses[id], "resolve", "Resolver", "subscriptionsByConnection") {
+					st.Set("inner-empty")
+				}
+			},
+			Node: func(nd ast.Node, st *fw.State) {
+				c, ok := nd.(*ast.CallExpr)
+				if !ok || !in.Final() || fw.Builtin(info, c) != "delete" || len(c.Args) != 2 || !fw.IsFieldSel(info, c.Args[0], "resolve", "Resolver", "subscriptionsByConnection") {
+					return
+				}
+				n++
+				ord++
+				r.Check(st.Must("inner-empty"), "C12-R8", fi.Name()+"/connection-entry-deleted-only-when-empty#"+itoa(ord), p.Pos(c.Pos()), "the connection's entry is deleted in "+fi.Name()+" only when its inner set is empty",
+					"the whole per-connection entry is dropped although other subscriptions of that connection may still be registered: UnsubscribeClient no longer finds them — they keep receiving events after the client disconnected and their completed channel is never closed")
+			},
+		}
+		in.Run(nil)
+	}
+	r.Expect("C12-R8", "deletes of subscriptionsByConnection entries", n, 1)
+}
+
+// identFromIndexOfField: obj is a local defined (comma-ok or plain) from an index expression on pkg.typ.field.
+func identFromIndexOfField(fi *fw.FuncInfo, obj types.Object, pkg, typ, field string) bool {
+	if obj == nil {
+		return false
+	}
+	info := fi.Info()
+	found := false
+	fw.WalkAll(fi.Decl.Body, func(nd ast.Node) bool {
+		as, ok := nd.(*ast.AssignStmt)
+		if !ok || len(as.Rhs) != 1 || len(as.Lhs) == 0 {
+			return true
+		}
+		id, isID := as.Lhs[0].(*ast.Ident)
+		if !isID || (info.Defs[id] != obj && info.Uses[id] != obj) {
+			return true
+		}
+		if ix, isIx := ast.Unparen(as.Rhs[0]).(*ast.IndexExpr); isIx && fw.IsFieldSel(info, ix.X, pkg, typ, field) {
+			found = true
+		}
+		return true
+	})
+	return found
 }
